@@ -84,6 +84,7 @@ def run(ctx):
         ctx.extra["impl_domain"] = "all 0 <= n <= 2^28-5 in the self-inclusive form, exhaustively on the crate (digest tabulation)"
         ctx.n += top
     ac.judge(ctx, progs, "c07")
+    ac.judge(ctx, progs[::3], "c07chk", profile="checked")
     return vlib.finish(ctx, rule="lengths: all n < 70 000 (thorough 300 000), +-64 around 63/4095/2^20/2^28, all one- and two-bit "
                        "patterns, seeded random values, both forms, through the cfg pass-through to the crate's private encoder; "
                        "call sites: every length-prefixed emitter with bodies on both sides of each width boundary, field lists with "
